@@ -226,7 +226,7 @@ def plans_of(spec):
     p.stdin = ('tty', b'')
     hmap = emit(p, spec, spec['ops'])
     lidx = p.op_simple('L')
-    out.append(('hist', 'plain', p, {'map': hmap, 'L': lidx}))
+    out.append(('hist', spec.get('_variant', 'plain'), p, {'map': hmap, 'L': lidx}))
     calm = gen.gen_world(__import__('random').Random(spec['junk2']), calm=True)
     calm['junk_seed'] = spec['junk2']; calm['slot_guard'] = 1
     for k, o in enumerate(spec['ops']):
@@ -240,7 +240,7 @@ def plans_of(spec):
             q.files.append((fn, 'f', spec['files'][fn].encode('latin-1')))
         q.stdin = ('tty', b'')
         smap = emit(q, spec, [spec['ops'][j] for j in sl])
-        out.append(('s%d' % k, 'plain', q, {'map': smap, 'slice': sl, 'pos': sl.index(k)}, True))
+        out.append(('s%d' % k, spec.get('_variant', 'plain'), q, {'map': smap, 'slice': sl, 'pos': sl.index(k)}, True))
     return out
 
 
@@ -409,3 +409,10 @@ def rebuild_files(spec):
             c = max(1, min(n - 1, n // 2))
             spec['files']['set%da.fa' % k] = gen.fasta_bytes(wl['names'][:c], wl['seqs'][:c]).decode('latin-1')
             spec['files']['set%db.fa' % k] = gen.fasta_bytes(wl['names'][c:], wl['seqs'][c:]).decode('latin-1')
+
+
+def harden(spec):
+    """the same job on the ASan+UBSan build (used by the gate for erratic candidates)"""
+    s = copy.deepcopy(spec)
+    s['_variant'] = 'asan'
+    return s
